@@ -22,6 +22,7 @@ Scenario (JSON-able dict):
 Priorities are integers or halves (sent to the model doubled).
 """
 import contextlib
+import os
 import threading
 
 TICK = 1.0 / 64.0
@@ -32,6 +33,10 @@ SUFFIX = {'done': 1, 'success': 2, 'failure': 3, 'complete': 4, 'value_changed':
 
 class Boom(Exception):
     pass
+
+
+class BoomBase(BaseException):
+    """an exception that does not derive from Exception (like GeneratorExit or asyncio.CancelledError)"""
 
 
 class Blocked(Exception):
@@ -207,7 +212,7 @@ class World:
         self.side = {'expect': [], 'firectx': {}, 'parent': {}, 'ftime': {}, 'timer_ev': [], 'wbound': {},
                      'treechk': [], 'optimes': [], 'gens': {}, 'callstart': {}, 'stops': [], 'tfires': [],
                      'dtime': {}, 'droot': {}, 'froot': {}, 'foreign': [], 'moves': [], 'qlen_after': [], 'nreg': 0,
-                     'tmpl_of': {}, 'zsend': [], 'running_at': {}, 'missed': []}
+                     'tmpl_of': {}, 'zsend': [], 'running_at': {}, 'missed': [], 'escaped': []}
         self.last_parent = {}
         self.spec_installed = set()     # (hid, name token | None) the operations say are installed
         self.decl, self.builtin, self.timer_h = assign_ids(sc)
@@ -295,6 +300,8 @@ class World:
         elif k == 'ret':
             return ('ret', a[1])
         elif k == 'raise':
+            if len(a) > 1 and a[1]:
+                raise BoomBase('boom')
             raise Boom('boom')
         elif k == 'addH':
             hid = a[1]
@@ -754,7 +761,13 @@ class World:
                 return []
             return [['do', op[1], ['reg', op[1], op[2]]]]
         if k == 'maybe_rmH':
-            return [['do', 0, ['rmH', op[1], None]]] if self.installed(op[1]) else []
+            name = op[2] if len(op) > 2 else None
+            if name is None:
+                return [['do', 0, ['rmH', op[1], None]]] if self.installed(op[1]) else []
+            m = self.bound.get(op[1])
+            owner = self.comps[self.owner_of(op[1])]
+            ok = m is not None and m in owner._handlers.get(py_name(name), ())
+            return [['do', 0, ['rmH', op[1], name]]] if ok else []
         if k == 'quiesce':
             c = self.comps[op[1]]
             if c is None or c.parent is not c:
@@ -797,6 +810,12 @@ class World:
                             self.clock += op[1]
                     except SystemExit as e:
                         status = f'exn sysexit {opt(e.code)}'
+                    except BaseException as e:  # an exception of user code must never leave the loop
+                        if op[0] == 'do' and op[2][0] in ('rmH', 'addH', 'reg', 'unreg'):
+                            status = 'exn raised'      # the API call itself raised (e.g. KeyError of removeHandler)
+                        else:
+                            status = f'exn escaped {type(e).__name__}'
+                            self.side['escaped'].append((len(self.log), type(e).__name__))
                     self.scan_moves()
                     self.ops.append(op)
                     self.oplogs.append((status, self.log[start:]))
@@ -863,7 +882,7 @@ def run_both(ctx, scenarios):
         rec['lines'] = lines
         cases_lines.append(lines)
         results.append(rec)
-    answers = ctx.driver.batch('core', cases_lines)
+    answers = ctx.driver.batch(os.environ.get('CORE_MODEL', 'core2'), cases_lines)
     for rec, ans in zip(results, answers):
         first = rec['first']
         setup = ans[:first]
